@@ -58,10 +58,26 @@ STHCases == {Idx("sth", v, t, sz, 0, 0) : v \in {0, 1}, t \in 1..5, sz \in 1..5}
 FixedLens == <<0, 1, 31, 32, 33, 34, 48, 64>>
 OddLens == {0, 1, 31, 33, 34, 48, 64}
 HashCases == {Idx("hash", n, wf, t, 0, 0) : n \in 1..Len(FixedLens), wf \in 0..1, t \in {2, 5}}
+\* lists of real SCTs (no extensions) of which some are damaged: the list framing stays that of a valid list
+DamagedLists == << <<"trail">>, <<"trunc">>, <<"ok", "trail">>, <<"trunc", "ok">>, <<"ok", "siglen-1">>, <<"siglen+1">>,
+                   <<"ok", "ok", "extlen+1">>, <<"ok", "ok", "ok">> >>
 ListCases == {Idx("sctlist", pat, 0, 0, 0, 0) : pat \in 1..Len(ListPatterns)}
         \cup {Idx("sctlist", pat, 1, 0, 0, 0) : pat \in 1..Len(RealLists)}
+        \cup {Idx("sctlist", pat, 2, 0, 0, 0) : pat \in 1..Len(DamagedLists)}
 BigPattern(pat) == pat >= 9
+\* the builders of the stored leaf: p1 builder, p2 chain pattern (chain builders), p3 precert, p4 length of the
+\* (pre-)certificate, p5 hash argument (hash builders): 0 absent (nil), k > 0 HashLens[k] bytes
+BuilderNames == <<"ExtraDataForChain", "BuildLogLeaf", "ExtraDataForChainHash", "BuildLogLeafWithChainHash">>
+HashLens == <<32, 0, 1, 255, 256, 257, 48>>
+LogLeafCases == {Idx("logleaf", b, x.p1, x.p2, x.p3, 0) : b \in 1..2,
+                   x \in {y \in ChainCases : IF BigPattern(y.p1) THEN y.p3 = 1 ELSE (y.p2 = 1 \/ y.p3 = 1)}}
+           \cup {Idx("logleaf", b, 1, pre, pl, h) : b \in 3..4, pre \in 0..1, pl \in IF Thorough THEN 1..Len(PreLens) ELSE {1, 2, 4}, h \in 0..Len(HashLens)}
+\* the same builders as the log front end reaches them: p1 mode, p2 precert, p3 certificates after the submitted one
+\* in the validated chain (0: a lone trusted root, which cannot be a precertificate)
+FrontEndModeNames == <<"direct", "indirect">>
+FrontEndCases == {Idx("frontend", m, pre, n, 0, 0) : m \in 1..2, pre \in 0..1, n \in {0, 1, 3}} \ {Idx("frontend", m, 1, 0, 0, 0) : m \in 1..2}
 Cases == LeafCases \cup {x \in ChainCases : IF BigPattern(x.p1) THEN x.p3 = 1 ELSE (x.p2 = 1 \/ x.p3 = 1)} \cup DSCases \cup SCTCases \cup STHCases \cup ListCases \cup HashCases
+         \cup LogLeafCases \cup FrontEndCases
 
 (* ---------- mutations: all literal bytes of small structures, the header bytes of big ones ---------- *)
 IsBig(e) == BLen(e) > 100000
@@ -185,27 +201,83 @@ HashLaws(r) == /\ FixedLossless(r.field, HashSize)
 (* ---------- SCT lists ---------- *)
 RealSCT(e, k) == EncSCT([version |-> 0, id |-> Pay(32, 123 + k), ts |-> TS[3], ext |-> Pay(e, 9 + k),
                          ds |-> [hash |-> 4, sigalg |-> 3, sig |-> Pay(71, 50 + k)]])
+\* a real SCT without extensions is 118 bytes: extensions length at 42..43, signature length at 46..47
+DamageElem(b, how) == CASE how = "trail" -> b \o Trail
+                        [] how = "trunc" -> Take(b, BLen(b) - 1)
+                        [] how = "siglen-1" -> SetByte(b, 47, 70)
+                        [] how = "siglen+1" -> SetByte(b, 47, 72)
+                        [] how = "extlen+1" -> SetByte(b, 43, 1)
+                        [] OTHER -> b
+\* the same bytes seen through the entry points that read the list out of a certificate: every way of sitting in
+\* the extension for the valid encoding, the well-formed OCTET STRING for every other byte string
+CarriedOf(i) == {[wrap |-> w, list |-> ListFromCert(w, i.b), scts |-> SCTsFromCert(w, i.b)] :
+                   w \in IF i.m = "valid" \/ Thorough THEN Wraps ELSE {"octet"}}
 ListRec(x) ==
   LET real == x.p2 = 1
-      scts == IF real THEN [i \in 1..Len(RealLists[x.p1]) |-> RealSCT(RealLists[x.p1][i], i).b]
-              ELSE [i \in 1..Len(ListPatterns[x.p1]) |-> Pay(ListPatterns[x.p1][i], 21 + 40 * i)]
+      scts == CASE x.p2 = 1 -> [i \in 1..Len(RealLists[x.p1]) |-> RealSCT(RealLists[x.p1][i], i).b]
+                [] x.p2 = 2 -> [i \in 1..Len(DamagedLists[x.p1]) |-> DamageElem(RealSCT(0, i).b, DamagedLists[x.p1][i])]
+                [] OTHER -> [i \in 1..Len(ListPatterns[x.p1]) |-> Pay(ListPatterns[x.p1][i], 21 + 40 * i)]
       exts == IF real THEN RealLists[x.p1] ELSE <<>>
       e == EncSCTList(scts)
       raw == IF e.ok THEN Fail ELSE RawEnc(SCTList, ChainVal(scts))
-      ins == IF e.ok THEN Muts(e.b, 6) ELSE RawInputs(raw) IN
+      \* a whole element more than the list declares, and a list that declares its first element only (the rest is a
+      \* well-formed tail): what follows a complete list is trailing data whatever it looks like
+      more == IF e.ok /\ Len(scts) >= 1 THEN {In("trail-elem", 0, 0, e.b \o Enc(SerializedSCT, VBytes(scts[1])).b)} ELSE {}
+      first == IF e.ok /\ Len(scts) >= 2
+               THEN {In("cut-elem", 0, 0, <<Lit(Pad(NumOf(2 + BLen(scts[1])), 2))>> \o Drop(e.b, 2))} ELSE {}
+      ins == IF e.ok THEN Muts(e.b, 6) \cup more \cup first ELSE RawInputs(raw) IN
   [kind |-> "sctlist", id |-> x, real |-> real, exts |-> exts, scts |-> scts, enc |-> e,
-   ins |-> {[m |-> i.m, p |-> i.p, d |-> i.d, b |-> i.b, dec |-> Dec(SCTList, i.b), complete |-> Complete(SCTList, i.b).ok] : i \in ins}]
+   ins |-> {[m |-> i.m, p |-> i.p, d |-> i.d, b |-> i.b, dec |-> Dec(SCTList, i.b), complete |-> Complete(SCTList, i.b).ok,
+             elems |-> LET l == Complete(SCTList, i.b) IN IF l.ok THEN ElemsOk(l.v) ELSE <<>>,
+             carried |-> CarriedOf(i)] : i \in ins}]
 ListLaws(r) == /\ RoundTrip(SCTList, ChainVal(r.scts)) /\ NoTrailing(SCTList, ChainVal(r.scts))
                /\ \A i \in r.ins : LawEncDec(SCTList, i.b)
                /\ (r.enc.ok => BLen(r.enc.b) <= 65537)
                /\ (r.real => r.enc.ok /\ BLen(r.enc.b) = 2 + RealTotals[r.id.p1])
+               \* the entry points of a certificate: nothing out of an incomplete list, no silent tail, SCTs only from a list
+               /\ \A i \in r.ins : \A cw \in i.carried :
+                     /\ NoSilentTail(cw.wrap, i.b)
+                     /\ (cw.scts.ok => cw.list.ok)
+                     /\ (cw.wrap = "octet" => (cw.list.ok <=> i.complete))
+                     /\ (cw.wrap \in {"octet+trail", "notoctet"} => ~cw.list.ok /\ ~cw.scts.ok)
+                     /\ (cw.scts.ok /\ cw.wrap = "octet" => \A k \in 1..Len(i.elems) : i.elems[k])
+
+(* ---------- the builders of the stored leaf ---------- *)
+LogLeafRec(x) ==
+  LET builder == BuilderNames[x.p1]  isPre == x.p3 = 1  cert == Pay(PreLens[x.p4], 77)
+      certs == [i \in 1..Len(ChainPatterns[x.p2]) |-> Pay(ChainPatterns[x.p2][i], 30 + 11 * i)]
+      hash == [present |-> x.p5 > 0, b |-> IF x.p5 > 0 THEN Pay(HashLens[x.p5], 140 + x.p5) ELSE <<>>]
+      l == [version |-> 0, leaf_type |-> 0, ts |-> TS[2],
+            entry |-> [etype |-> IF isPre THEN 1 ELSE 0, cert |-> IF isPre THEN Pay(33, 8) ELSE cert, ikh |-> Pay(32, 99)], ext |-> <<>>]
+      s == StoredLeaf(builder, l, isPre, cert, certs, hash)
+      form == ExtraForm(builder, hash) IN
+  [kind |-> "logleaf", id |-> x, builder |-> builder, isPre |-> isPre, pre |-> cert, certs |-> certs, hash |-> hash, leaf |-> l,
+   form |-> form, stored |-> s,
+   \* what an RFC client makes of the stored leaf when it is served as it is
+   reads |-> s.ok /\ builder \in LeafBuilders /\ EntryParse(s.leaf_value, s.extra_data).ok,
+   extraval |-> IF s.ok /\ form = "rfc" THEN Dec(IF isPre THEN PrecertChainEntry ELSE CertificateChain, s.extra_data).v ELSE VNone]
+LogLeafLaws(r) ==
+  /\ ServedReadsBack(r.builder, r.leaf, r.isPre, r.pre, r.certs, r.hash)
+  /\ FormsDiffer(r.pre)
+  /\ (r.form = "hash" <=> (r.builder = "ExtraDataForChainHash" \/ (r.builder = "BuildLogLeafWithChainHash" /\ r.hash.present)))
+  /\ (r.form = "rfc" /\ r.stored.ok /\ r.builder \in LeafBuilders => r.reads)
+  /\ (r.stored.ok /\ r.form = "hash" => BLen(r.hash.b) <= 256)
+
+FrontEndRec(x) ==
+  LET mode == FrontEndModeNames[x.p1] IN
+  [kind |-> "frontend", id |-> x, mode |-> mode, isPre |-> x.p2 = 1, n |-> x.p3, builder |-> FrontEndBuilder(mode),
+   storedform |-> StoredForm(mode), servedform |-> ServedForm(mode)]
+FrontEndLaws(r) == /\ r.servedform = "rfc" /\ (r.storedform = "hash" <=> r.mode = "indirect")
+                   /\ r.mode \in FrontEndModes /\ r.builder \in LeafBuilders
 
 CaseRec(x) == CASE x.kind = "leaf" -> LeafRec(x) [] x.kind = "chain" -> ChainRec(x) [] x.kind = "ds" -> DSRec(x)
                 [] x.kind = "sct" -> SCTRec(x) [] x.kind = "sth" -> STHRec(x) [] x.kind = "sctlist" -> ListRec(x)
-                [] x.kind = "hash" -> HashRec(x)
+                [] x.kind = "hash" -> HashRec(x) [] x.kind = "logleaf" -> LogLeafRec(x)
+                [] x.kind = "frontend" -> FrontEndRec(x)
 Laws(x, r) == CASE x.kind = "leaf" -> LeafLaws(r) [] x.kind = "chain" -> ChainLaws(r) [] x.kind = "ds" -> DSLaws(r)
                 [] x.kind = "sct" -> SCTLaws(r) [] x.kind = "sth" -> STHLaws(r) [] x.kind = "sctlist" -> ListLaws(r)
-                [] x.kind = "hash" -> HashLaws(r)
+                [] x.kind = "hash" -> HashLaws(r) [] x.kind = "logleaf" -> LogLeafLaws(r)
+                [] x.kind = "frontend" -> FrontEndLaws(r)
 
 Init == c \in Cases
 Next == UNCHANGED c
